@@ -5,6 +5,9 @@ package main
 
 import (
 	"fmt"
+	"os"
+	"path/filepath"
+	"regexp"
 	"reflect"
 	"go/ast"
 	"sort"
@@ -155,6 +158,25 @@ func main() {
 			rows = append(rows, fmt.Sprintf("(%s, %s)", ex.LeanStr(f), ex.LeanStr(string(sf.Tag))))
 		}
 		fmt.Printf("def policyFieldTags : List (String × String) := [%s]\n", strings.Join(rows, ", "))
+	}
+	ex.Comment("what the operator documentation (docs/config.json.md) says: numeric literals after these keys, and the frozen address")
+	{
+		doc, err := os.ReadFile(filepath.Join(*ex.Repo, "docs", "config.json.md"))
+		if err != nil {
+			ex.Die("docs/config.json.md: %v", err)
+		}
+		var rows []string
+		for _, key := range []string{"CrossChainUTXOFreezeHeight", "CrossChainUTXORestrictionHeight", "DisableStartHeight"} {
+			for _, m := range regexp.MustCompile(`"`+key+`"\s*:\s*([0-9]+)`).FindAllStringSubmatch(string(doc), -1) {
+				rows = append(rows, fmt.Sprintf("(%s, %s)", ex.LeanStr(key), m[1]))
+			}
+		}
+		fmt.Printf("def docLiterals : List (String × Nat) := [%s]\n", strings.Join(rows, ", "))
+		var addrs []string
+		for _, m := range regexp.MustCompile(`"Address"\s*:\s*"([^"]+)"`).FindAllStringSubmatch(string(doc), -1) {
+			addrs = append(addrs, m[1])
+		}
+		ex.DefStrList("docFrozenAddresses", addrs)
 	}
 	ex.Footer("C32")
 }
